@@ -7,7 +7,7 @@ Tolerance = the property's: 1e-6 * sqrt((ab|ab)(cd|cd)) per element, the Schwarz
 model (command 20 on (s1,s2,s1,s2) and (s3,s4,s3,s4); command 21 without transform at basis level); shapes are
 compared exactly; an invalid notation must be rejected.
 
-Three streams of cases:
+Five streams of cases (illc and boys were added in round c, see `ill_contracted_list`, `lib.boys_cases`):
  * block: shell quartets, l in 0..3 (quick: stratified seed-dependent sample; thorough: all 256 l-tuples);
  * basis: 2-4 shell bases of every coordinate-type pattern, both notations, with/without transform, plus the
    implementation-only relation physicist == chemist.transpose(0,2,1,3) (bitwise);
@@ -43,7 +43,15 @@ RULE = ("block level: shell quartets with l in 0..3; quick = stratified seed-dep
         "centre in thorough), both notations, every third case with a (rectangular) transform, invalid notations. "
         "ill-conditioned list: fixed, 108 quartets (core s 1e3/1e4/1e5/contracted x diffuse dd/ff/df/pf pairs x "
         "same atom / other atom x both orientations; 6 in-range quartets diffuse s/p at A + tight d/f (exponent 10 / 5) "
-        "at B, |AB| = 2 or 4, against diffuse d/f pairs, both orientations). Non-trivial: L>0 or K>1 or M>1 and a block that is not "
+        "at B, |AB| = 2 or 4, against diffuse d/f pairs, both orientations). ill-contracted list: fixed, 7 quartets of CONTRACTED "
+        "shells spanning tight and diffuse exponents (s {98304, 1/4}, {65536, 1/2}, {98304, 1536, 3/8}; p {8192, 1/4}; d {2, "
+        "1/32}; f {4, 1/32}, {5/16}; p {1, 1/16}) - tight pair | diffuse pair on the same / another atom, (s p | d d), "
+        "interleaved (s d | s d) - each with every listing order of the primitives of every shell (descending, ascending, "
+        "K = 3: two shuffles) x orientation as given / bra<->ket / both pairs reversed / both (8..32 variants per quartet, "
+        "168 in all, one exact block each); 4 seeded quartets of the same kind (thorough 40; tightest exponent within a "
+        "factor 4 of exp_cap(l), 10 sampled variants each) and a whole-basis case (contracted s ascending first, "
+        "spherical contracted d). Boys function: ElectronRepulsionIntegral.boys_func on orders 0..12 x 49 fixed arguments "
+        "(0, 5e-324 .. 1e6, every decade of 1e-32..1e-24) + 21 seeded 53-bit arguments, mpmath at 1e-11 relative. Non-trivial: L>0 or K>1 or M>1 and a block that is not "
         "identically zero; distinct by the hash of the exact input")
 ASSUMPTIONS = [
     "floating-point rounding of the NumPy pipeline and of scipy.special.hyp1f1 is not modelled: the 1e-6*Schwarz "
